@@ -1013,6 +1013,10 @@ impl Xot {
         if !self.text_consolidation {
             return false;
         }
+        // after consolidation at its old position the node itself can have
+        // become the neighbour it is to be placed next to
+        let prev_node = prev_node.filter(|prev| *prev != node);
+        let next_node = next_node.filter(|next| *next != node);
         let added_text = if let Value::Text(t) = self.value(node) {
             Some(t.get().to_string())
         } else {
